@@ -7,6 +7,7 @@ import (
 	"encoding/json"
 	"fmt"
 	"math/big"
+	"sync"
 
 	"github.com/ethereum/go-ethereum/common/hexutil"
 	ethcrypto "github.com/ethereum/go-ethereum/crypto"
@@ -32,13 +33,44 @@ var walletKeys = []string{
 	"0x5555555555555555555555555555555555555555555555555555555555555555",
 }
 
+// leadingZeroKey: a private key whose public point has a coordinate starting with a zero byte
+// (about one key in 128): encoders that drop leading zeros show on it
+var leadingZeroKeyOnce sync.Once
+var leadingZeroKeyHex string
+
+func leadingZeroKey() string {
+	leadingZeroKeyOnce.Do(func() {
+		for k := int64(7); k < 100000; k++ {
+			h := fmt.Sprintf("0x%064x", k)
+			priv, err := ethcrypto.HexToECDSA(h[2:])
+			if err != nil {
+				continue
+			}
+			if len(priv.PublicKey.X.Bytes()) < 32 || len(priv.PublicKey.Y.Bytes()) < 32 {
+				leadingZeroKeyHex = h
+				return
+			}
+		}
+		leadingZeroKeyHex = walletKeys[4]
+	})
+	return leadingZeroKeyHex
+}
+
 func NewWallet(i int) *Wallet {
-	priv, err := encryption.NewPrivateKeyFromHex(walletKeys[i%len(walletKeys)])
+	key := walletKeys[i%len(walletKeys)]
+	if i%len(walletKeys) == 4 {
+		key = leadingZeroKey()
+	}
+	priv, err := encryption.NewPrivateKeyFromHex(key)
 	if err != nil {
 		panic(err)
 	}
 	pub := encryption.NewPublicKey(priv)
-	return &Wallet{priv, pub, pub.String(), pub.Address()}
+	// the hexadecimal form and the address are computed with go-ethereum directly, not with the
+	// repository's PublicKey.String / Address (they are what the node is compared against)
+	pubHex := hexutil.Encode(ethcrypto.FromECDSAPub(pub.PublicKey))
+	addr := ethcrypto.PubkeyToAddress(*pub.PublicKey).Hex()
+	return &Wallet{priv, pub, pubHex, addr}
 }
 
 // ---- mirror structs: same JSON as the ledger types, but with exported fields ---
